@@ -360,6 +360,8 @@ namespace Pistache::Async
                 }
                 catch (const InternalRethrow& e)
                 {
+                    // the derived promise is settled here: serialise with a then() on it
+                    std::lock_guard<std::mutex> chainGuard(chain_->mtx);
                     chain_->exc   = e.exc;
                     PISTACHE_VERIF_POINT(22, chain_.get());
                     chain_->state = State::Rejected;
@@ -447,6 +449,7 @@ namespace Pistache::Async
                 void doReject(const std::shared_ptr<CoreT<T>>& core) override
                 {
                     reject_(core->exc);
+                    std::lock_guard<std::mutex> chainGuard(this->chain_->mtx);
                     for (const auto& req : this->chain_->requests)
                     {
                         PISTACHE_VERIF_POINT(24, req.get());
@@ -458,6 +461,8 @@ namespace Pistache::Async
                 void finishResolve(Ret&& ret) const
                 {
                     typedef typename std::decay<Ret>::type CleanRet;
+                    // the derived promise is settled here: serialise with a then() on it
+                    std::lock_guard<std::mutex> chainGuard(this->chain_->mtx);
                     this->chain_->template construct<CleanRet>(std::forward<Ret>(ret));
                     for (const auto& req : this->chain_->requests)
                     {
@@ -494,6 +499,7 @@ namespace Pistache::Async
                 void doReject(const std::shared_ptr<CoreT<void>>& core) override
                 {
                     reject_(core->exc);
+                    std::lock_guard<std::mutex> chainGuard(this->chain_->mtx);
                     for (const auto& req : this->chain_->requests)
                     {
                         PISTACHE_VERIF_POINT(24, req.get());
@@ -505,6 +511,8 @@ namespace Pistache::Async
                 void finishResolve(Ret&& ret) const
                 {
                     typedef typename std::remove_reference<Ret>::type CleanRet;
+                    // the derived promise is settled here: serialise with a then() on it
+                    std::lock_guard<std::mutex> chainGuard(this->chain_->mtx);
                     this->chain_->template construct<CleanRet>(std::forward<Ret>(ret));
                     for (const auto& req : this->chain_->requests)
                     {
@@ -628,6 +636,7 @@ namespace Pistache::Async
 
                     void operator()(const PromiseType& val)
                     {
+                        std::lock_guard<std::mutex> chainGuard(chainCore->mtx);
                         chainCore->construct<PromiseType>(val);
                         for (const auto& req : chainCore->requests)
                         {
@@ -654,6 +663,7 @@ namespace Pistache::Async
                     promise.then(std::move(chainer), [weakPtr](std::exception_ptr exc) {
                         if (auto core = weakPtr.lock())
                         {
+                            std::lock_guard<std::mutex> chainGuard(core->mtx);
                             core->exc   = std::move(exc);
                             PISTACHE_VERIF_POINT(22, core.get());
                             core->state = State::Rejected;
@@ -712,6 +722,7 @@ namespace Pistache::Async
 
                     void operator()(const PromiseType& val)
                     {
+                        std::lock_guard<std::mutex> chainGuard(chainCore->mtx);
                         chainCore->construct<PromiseType>(val);
                         for (const auto& req : chainCore->requests)
                         {
@@ -759,6 +770,7 @@ namespace Pistache::Async
                     auto chainer = makeChainer(promise);
                     promise.then(std::move(chainer), [=](std::exception_ptr exc) {
                         auto core   = this->chain_;
+                        std::lock_guard<std::mutex> chainGuard(core->mtx);
                         core->exc   = std::move(exc);
                         PISTACHE_VERIF_POINT(22, core.get());
                         core->state = State::Rejected;
